@@ -254,3 +254,34 @@ func c04GenGz(r *Rand, tier string) []string {
 	}
 	return out
 }
+
+// c04GzClass describes one `gz` input for the statistics: how compress/gzip itself judges the file.
+func c04GzClass(file []byte) []string {
+	zr, err := gzip.NewReader(bytes.NewReader(file))
+	if err != nil {
+		return []string{"notGzip(plainFallback)"}
+	}
+	var out []string
+	d, err := io.ReadAll(zr)
+	if err != nil {
+		out = append(out, "streamFails")
+		if len(d) > 0 {
+			out = append(out, "streamFailsAfterData")
+		}
+		if len(d) > 0 && d[len(d)-1] != '\n' {
+			out = append(out, "failsInsideLine")
+		}
+	} else {
+		out = append(out, "streamClean")
+	}
+	if len(d) > batchers.ReadAheadBufferSize {
+		out = append(out, "decodedOver128KiB")
+	}
+	if bytes.Count(file, []byte{0x1f, 0x8b, 8}) > 1 {
+		out = append(out, "multiMember")
+	}
+	if bytes.Contains(d, []byte("\r\n")) {
+		out = append(out, "crlf")
+	}
+	return out
+}
